@@ -92,15 +92,16 @@ example : let r := run (init { tls := .required, plainOk := true, autoReconnect 
     r.1.conn = .connecting ∧ isConnected r.1 = false ∧ Out.sig .disconnected ∈ r.2 ∧ Out.sent .ping .clear ∉ r.2 := by decide
 
 /-- **A (re)connect never leaves an old session on the wire**: in ANY state `connectToHost()` (application or reconnect timer)
-ends with the socket not connected — an old connection is aborted, its session closed — and writes nothing at all. -/
-theorem connect_starts_from_an_unconnected_socket (s : St) :
+ends with the socket not connected — an old connection is aborted, its session closed — and writes nothing at all (stated for a
+client without outstanding retry-requests: what their failure continuations send is written to the closed socket, link `down`). -/
+theorem connect_starts_from_an_unconnected_socket (s : St) (hr0 : s.pendingRetry = 0) :
     (connectTo s).1.conn = .connecting ∧ (connectTo s).1.sessionStarted = (socketGone s).1.sessionStarted ∧
     (∀ k l, Out.sent k l ∉ (connectTo s).2) ∧
     (s.conn = .connected → s.redirect = false → (connectTo s).1.sessionStarted = false ∧ Out.sig .disconnected ∈ (connectTo s).2) := by
   refine ⟨rfl, rfl, ?_, ?_⟩
   · intro k l
-    simp only [connectTo, socketGone, onSocketDisconnected, closeSession]
-    (repeat' split) <;> simp [iqDones]
+    simp only [connectTo, socketGone, onSocketDisconnected, closeSession, hr0]
+    (repeat' split) <;> simp [iqDones, retryN]
   · intro hc hr
     simp [connectTo, socketGone, hc, onSocketDisconnected, hr, closeSession]
 
@@ -140,6 +141,7 @@ disconnected, no session, no other send. -/
 theorem pre_tls_element_is_rejected (cfg : Cfg) (hreq : cfg.tls = .required) (script : List Ev) (e : El)
     (hc : (run (init cfg) script).1.conn = .connected) (hh : (run (init cfg) script).1.headerSeen = true)
     (hw : (run (init cfg) script).1.wedged = false) (hl : (run (init cfg) script).1.listener = .idle)
+    (hr0 : (run (init cfg) script).1.pendingRetry = 0)   -- no request with a re-sending failure continuation is outstanding
     (he : (run (init cfg) script).1.encrypted = false)
     (hne : e.isStreamLevel = false) (hnh : ∀ v i, e ≠ .header v i) :
     (step (run (init cfg) script).1 (.recv e)).1.conn = .disconnected ∧
@@ -154,17 +156,18 @@ theorem pre_tls_element_is_rejected (cfg : Cfg) (hreq : cfg.tls = .required) (sc
     | (exfalso; exact hnh _ _ rfl)
     | (simp [El.isStreamLevel] at hne; done)
     | (simp [step, recv, hc, hw, hh, dispatch, hl, idleHandle, idleGuarded, St.preTls, he, hcfg, El.isStreamLevel, reject,
-        disconnectFromHost, socketClose, onSocketDisconnected, hred, closeSession, send, iqDones]; done)
+        disconnectFromHost, socketClose, onSocketDisconnected, hred, closeSession, send, iqDones, hr0, retryN]; done)
     | (rename_i k; cases k <;>
         simp [step, recv, hc, hw, hh, dispatch, hl, idleHandle, idleGuarded, St.preTls, he, hcfg, El.isStreamLevel, reject,
-          disconnectFromHost, socketClose, onSocketDisconnected, hred, closeSession, send, iqDones])
+          disconnectFromHost, socketClose, onSocketDisconnected, hred, closeSession, send, iqDones, hr0, retryN])
 
 /-- **If STARTTLS is refused the client gives up.**  TLS required; in any reachable state where the client has sent
 `<starttls/>` and waits for the answer on a connected, unencrypted link: `<failure/>` (or anything but `<proceed/>`) makes it
 report an error, send the stream close and nothing else, and end disconnected without session. -/
 theorem starttls_failure_disconnects (cfg : Cfg) (script : List Ev)
     (hc : (run (init cfg) script).1.conn = .connected) (hh : (run (init cfg) script).1.headerSeen = true)
-    (hw : (run (init cfg) script).1.wedged = false) (hl : (run (init cfg) script).1.listener = .starttls) :
+    (hw : (run (init cfg) script).1.wedged = false) (hl : (run (init cfg) script).1.listener = .starttls)
+    (hr0 : (run (init cfg) script).1.pendingRetry = 0) :
     (step (run (init cfg) script).1 (.recv .tlsFailure)).1.conn = .disconnected ∧
     (step (run (init cfg) script).1 (.recv .tlsFailure)).1.sessionStarted = false ∧
     (∀ k l, Out.sent k l ∈ (step (run (init cfg) script).1 (.recv .tlsFailure)).2 → k = .streamClose) ∧
@@ -172,20 +175,21 @@ theorem starttls_failure_disconnects (cfg : Cfg) (script : List Ev)
   have hred : (run (init cfg) script).1.redirect = false := run_red script (init cfg) rfl
   generalize (run (init cfg) script).1 = s at *
   simp [step, recv, hc, hw, hh, dispatch, hl, starttlsHandle, reject, disconnectFromHost, socketClose, onSocketDisconnected,
-    hred, closeSession, send, iqDones]
+    hred, closeSession, send, iqDones, hr0, retryN]
 
 /-- **If the TLS handshake fails after `<proceed/>` the client gives up**: error, no further send at all, `disconnected`,
 socket disconnected, no session. -/
 theorem failed_handshake_disconnects (cfg : Cfg) (script : List Ev)
     (hc : (run (init cfg) script).1.conn = .connected) (hh : (run (init cfg) script).1.headerSeen = true)
-    (hw : (run (init cfg) script).1.wedged = false) (hl : (run (init cfg) script).1.listener = .starttls) :
+    (hw : (run (init cfg) script).1.wedged = false) (hl : (run (init cfg) script).1.listener = .starttls)
+    (hr0 : (run (init cfg) script).1.pendingRetry = 0) :
     (step (run (init cfg) script).1 (.recv (.proceed false))).1.conn = .disconnected ∧
     (step (run (init cfg) script).1 (.recv (.proceed false))).1.sessionStarted = false ∧
     (∀ k l, Out.sent k l ∉ (step (run (init cfg) script).1 (.recv (.proceed false))).2) ∧
     .sig .disconnected ∈ (step (run (init cfg) script).1 (.recv (.proceed false))).2 := by
   have hred : (run (init cfg) script).1.redirect = false := run_red script (init cfg) rfl
   generalize (run (init cfg) script).1 = s at *
-  simp [step, recv, hc, hw, hh, dispatch, hl, starttlsHandle, onSocketDisconnected, armReconnect, hred, closeSession, iqDones]
+  simp [step, recv, hc, hw, hh, dispatch, hl, starttlsHandle, onSocketDisconnected, armReconnect, hred, closeSession, iqDones, hr0, retryN]
 
 /-- **The scope hypothesis is tight for `sendIq`/`sendPacket`: what the application sends is written to the socket as is.**
 In ANY state: if the socket is connected and not encrypted, a request of the application goes over the wire in clear (the
@@ -241,14 +245,14 @@ theorem versionless_header_gives_up (cfg : Cfg) (hreq : cfg.tls = .required) (hn
     (run (init cfg) witnessVersionless).2 = [.sent .streamOpen .clear, .sent .streamClose .clear, .sig .disconnected] ∧
     (run (init cfg) witnessVersionless).1.conn = .disconnected := by
   simp [witnessVersionless, run, step, connectTo, socketGone, init, recv, handleStart, handleStream, hreq, hns, disconnectFromHost, socketClose,
-    onSocketDisconnected, closeSession, send, link, iqDones]
+    onSocketDisconnected, closeSession, send, link, iqDones, retryN]
 
 /-- **An IQ request before encryption is refused, not answered**: error, stream close, disconnect. -/
 theorem iq_request_before_tls_is_rejected (cfg : Cfg) (hreq : cfg.tls = .required) :
     (run (init cfg) witnessIqRequest).2 =
       [.sent .streamOpen .clear, .sig .error, .sent .streamClose .clear, .sig .disconnected] := by
   simp [witnessIqRequest, run, step, connectTo, socketGone, init, recv, handleStart, handleStream, hreq, dispatch, idleHandle, idleGuarded, El.isStreamLevel, St.preTls, reject,
-    disconnectFromHost, socketClose, onSocketDisconnected, closeSession, send, link, iqDones]
+    disconnectFromHost, socketClose, onSocketDisconnected, closeSession, send, link, iqDones, retryN]
 
 /-- **If encryption cannot be negotiated the client gives up and disconnects.**  TLS required; after ANY script that leaves
 the client connected, unencrypted, past the stream header and waiting for features: a features element without
@@ -260,6 +264,7 @@ theorem tls_unavailable_disconnects (cfg : Cfg) (script : List Ev) (f : Features
     (hh : (run (init cfg) script).1.headerSeen = true)
     (hw : (run (init cfg) script).1.wedged = false)
     (hl : (run (init cfg) script).1.listener = .idle)
+    (hr0 : (run (init cfg) script).1.pendingRetry = 0)   -- no request with a re-sending failure continuation is outstanding
     (hf : f.tls = .absent ∨ cfg.localTls = false) :
     let s := (run (init cfg) script).1
     let r := step s (.recv (.features f))
@@ -267,7 +272,7 @@ theorem tls_unavailable_disconnects (cfg : Cfg) (script : List Ev) (f : Features
     r.1.conn = .disconnected ∧ r.1.sessionStarted = false ∧ r.1.authenticated = false ∧ r.1.pendingIq = 0 := by
   intro s r
   have hcfg : s.cfg = cfg := run_cfg script (init cfg)
-  exact tls_unavailable_core s f (by rw [hcfg]; exact hreq) hc he hh hw hl (run_red script (init cfg) rfl)
+  exact tls_unavailable_core s f (by rw [hcfg]; exact hreq) hc he hh hw hl (run_red script (init cfg) rfl) hr0
     (by rw [hcfg]; exact hf)
 
 /-! ### Non-vacuity: a script that meets the scope hypothesis, reaches the encrypted phase and sends a secret there -/
